@@ -453,7 +453,7 @@ class Dex:
             if k == 'method':
                 ref = (ref[0], (ref[1][0], tuple(ref[1][1])), ref[2])
             i = self.idx[table][ref]
-            n = v[2] if len(v) > 2 else min_unsigned_bytes(i)
+            n = max(v[2], min_unsigned_bytes(i)) if len(v) > 2 else min_unsigned_bytes(i)     # requested width is a lower bound
             return bytes([(n - 1) << 5 | VT[k]]) + i.to_bytes(n, 'little')
         if k == 'array':
             return bytes([VT[k]]) + uleb(len(v[1])) + b''.join(self.enc_value(x) for x in v[1])
